@@ -37,6 +37,14 @@ EXTRA = [
     # flush_all with a delay, under both reply modes (the order of its optional words matters to the server)
     ops.Op("flush_all", 30),
     ops.Op("flush_all", delay=30, noreply=False),
+    # noreply=None given explicitly means "use the default", exactly like leaving it out
+    ops.Op("incr", "a", 2, noreply=None),
+    ops.Op("decr", "a", 1, noreply=None),
+    ops.Op("delete", "a", noreply=None),
+    ops.Op("touch", "b", 100, noreply=None),
+    ops.Op("set", "a", b"7", noreply=None),
+    # the same key-less call twice: each one asks the server again
+    ops.Op("version"),
 ]
 
 
